@@ -446,6 +446,46 @@ inductive CEffect where
   | other (text : String)
   deriving DecidableEq, Repr, Inhabited
 
+/-! ### Release of storage blocks -/
+
+inductive MemKind where
+  | alloc (callee : String)        -- `alloc`, `alloc_zeroed`, `realloc`
+  | dealloc (callee : String)
+  | escape (callee : String)       -- `forget`, `leak`, `into_raw`, `from_raw`, `ManuallyDrop`, ...
+  deriving DecidableEq, Repr, Inhabited
+
+structure MemSite where
+  file : String
+  func : String
+  kind : MemKind
+  deriving DecidableEq, Repr, Inhabited
+
+/-- The single-threaded block: layout text at allocation and at release, whether the pointer freed is the block's
+own, how many `dealloc` calls the `Drop` has and whether the call sits under a condition or loop. -/
+structure BlockRelease where
+  allocLayout : String
+  releaseLayout : String
+  pointerIsOwn : Bool
+  deallocCalls : Nat
+  conditional : Bool
+  deriving DecidableEq, Repr, Inhabited
+
+inductive DropPtr where
+  | head | current | other
+  deriving DecidableEq, Repr, Inhabited
+
+/-- `impl Drop for AtomicBucketList`, statement by statement. -/
+inductive DropEffect where
+  | loadHead                       -- `let mut head = self.head.load(..)`
+  | whileHeadNonNull | loopEnd     -- `while !head.is_null() { .. }`
+  | saveCurrent                    -- `let current = head`
+  | advance (p : DropPtr)          -- `head = (*p).next.load(..)`
+  | readCapacity (p : DropPtr)     -- `let capacity = (*p).capacity`
+  | layoutOfCapacity               -- `let layout = AtomicBucket::layout(capacity)..`
+  | dealloc (p : DropPtr) (layoutIsThatLocal : Bool)
+  | other (text : String)
+  deriving DecidableEq, Repr, Inhabited
+
 /-- One method of a view: how it takes `self` and which fields it touches. -/
 structure ViewMethod where
   owner : Wrapper
